@@ -59,6 +59,13 @@ func runSelftest(c *Ctx, verifDir string) {
 		c.R.Notes = append(c.R.Notes, "selftest skipped: "+err.Error())
 		return
 	}
+	// The variants are analysed with a private, throw-away Go build cache: every scratch copy
+	// adds some 20 MB of entries for the packages that differ, and a thorough run has a few
+	// hundred variants — in the shared cache that is several GB per run, never trimmed.
+	cacheDir, cerr := os.MkdirTemp("", "verifself-gocache.")
+	if cerr == nil {
+		defer os.RemoveAll(cacheDir)
+	}
 	results := make([]variantResult, len(variants))
 	sem := make(chan bool, 8)
 	var wg sync.WaitGroup
@@ -110,6 +117,9 @@ func runSelftest(c *Ctx, verifDir string) {
 				return
 			}
 			cmd := exec.Command(self, "-repo", filepath.Join(scr, "repo"), "-verif", verifDir, "-prop", prop, "-tier", "quick", "-evidence", filepath.Join(scr, "ev.json"))
+			if cerr == nil {
+				cmd.Env = append(os.Environ(), "GOCACHE="+cacheDir)
+			}
 			out, _ := cmd.CombinedOutput()
 			res.Exit = cmd.ProcessState.ExitCode()
 			seen := map[string]bool{}
